@@ -389,6 +389,6 @@ def interface_cases(draw):
 
 PROFILE = specgen.profile(depth=2, domain_rate=0.0, max_defs=4, effects=True, lazy_root=False, total_preds=True, derived=False)
 PARTS = [
-    Part("histories", check_history, strategy=lambda ctx: history_cases(PROFILE), budget={"quick": 100, "thorough": 1500}),
-    Part("interfaces", check_interfaces, strategy=lambda ctx: interface_cases(), budget={"quick": 200, "thorough": 3000}),
+    Part("histories", check_history, strategy=lambda ctx: history_cases(PROFILE), budget={"quick": 250, "thorough": 1500}),
+    Part("interfaces", check_interfaces, strategy=lambda ctx: interface_cases(), budget={"quick": 500, "thorough": 3000}),
 ]
